@@ -21,6 +21,16 @@ WProgsR == {[kind |-> "ctxregex", pc |-> a, p1 |-> b, p2 |-> c] : a \in Placemen
 RegexLines(pl) == IF pl = "absent" THEN <<>> ELSE <<[key |-> "arg:context:regex", val |-> IF pl = "match" THEN "^kx$" ELSE "^zz$"]>>
 EffRegex(w, pl) == Effective(<<>>, RegexLines(w.pc), RegexLines(pl), "ctxRegex")
 RegexOK(w) == EffRegex(w, w.p1) = "^kx$" /\ EffRegex(w, w.p2) = "^kx$"
+\* kind "skipcopy": skipCopySameType (absent / yes / no) on the converter and on two declared methods Mk(Sk) Tk whose structs have a
+\* field I of the *same* named struct type In6{L []int} on both sides and a field C of *different* named types Cu -> CuD{Tags []int}.
+\* The method's own value decides whether I is assigned as it is; the generated helpers (In6 -> In6, Cu -> CuD, shared by both
+\* methods) follow the converter's value.  Observed through address labels: does the result share the slice with the source?
+WProgsS == {[kind |-> "skipcopy", pc |-> a, p1 |-> b, p2 |-> c] : a \in Placements3, b \in Placements3, c \in Placements3}
+SkipLines(pl) == IF pl = "absent" THEN <<>> ELSE <<[key |-> "skipCopySameType", val |-> pl]>>
+EffSkipConv(w) == Effective(<<>>, SkipLines(w.pc), <<>>, "skip")
+EffSkipMeth(w, pl) == Effective(<<>>, SkipLines(w.pc), SkipLines(pl), "skip")
+AliasI(w, pl) == EffSkipMeth(w, pl) \/ EffSkipConv(w)
+AliasC(w) == EffSkipConv(w)
 LinesOf(pl) == IF pl = "absent" THEN <<>> ELSE <<[key |-> "wrapErrors", val |-> pl]>>
 EffConvW(w) == Effective(<<>>, LinesOf(w.pc), <<>>, "wrapErrors")
 EffMethW(w, pl) == Effective(<<>>, LinesOf(w.pc), LinesOf(pl), "wrapErrors")
